@@ -471,7 +471,22 @@ impl<'a, 'tcx> D<'a, 'tcx> {
                 v.push(("pat", self.pat(x)));
                 v.push(("guard", self.expr(g)));
             }
-            P::Range(..) => k = "Range",
+            P::Range(lo, hi, end) => {
+                k = "Range";
+                for (name, b) in [("lo", lo), ("hi", hi)] {
+                    if let Some(pe) = b {
+                        if let hir::PatExprKind::Lit { lit, negated } = &pe.kind {
+                            let mut lv = vec![];
+                            self.lit(lit, &mut lv);
+                            if *negated {
+                                lv.push(("neg", J::Bool(true)));
+                            }
+                            v.push((name, J::Obj(lv)));
+                        }
+                    }
+                }
+                v.push(("inclusive", J::Bool(matches!(end, hir::RangeEnd::Included))));
+            }
             P::Slice(a, m, b) => {
                 k = "Slice";
                 v.push(("before", J::Arr(a.iter().map(|x| self.pat(x)).collect())));
